@@ -27,6 +27,7 @@
 #include <wallet/test/util.h>
 #include <wallet/wallet.h>
 #include <deque>
+#include <functional>
 using namespace vfh;
 using namespace wallet;
 
@@ -684,12 +685,42 @@ UniValue DoBump(World& w, const UniValue& a, UniValue& line)
         LOCK(w.wallet->cs_wallet);
         for (const auto& in : orig.tx->vin) if (!w.wallet->IsMine(in.prevout)) allmine = false;
     }
+    // a wallet transaction spending an output of the original - unless that spender is dead: neither confirmed nor in the mempool, and it or
+    // one of its unconfirmed ancestors outside the mempool has an input that a mempool or chain transaction spends (judged from the node)
+    std::function<bool(const CTransactionRef&, int)> dead = [&](const CTransactionRef& x, int fuel) -> bool {
+        if (w.pool().exists(x->GetHash())) return false;
+        {
+            LOCK(cs_main);
+            for (size_t i = 0; i < x->vout.size(); ++i) if (w.sim->cm().ActiveChainstate().CoinsTip().HaveCoin(COutPoint(x->GetHash(), i))) return false;   // confirmed
+        }
+        for (const auto& in : x->vin) {
+            if (w.pool().isSpent(in.prevout)) return true;                                   // a mempool transaction (not x) spends it
+            const bool in_utxo = WITH_LOCK(cs_main, return w.sim->cm().ActiveChainstate().CoinsTip().HaveCoin(in.prevout));
+            const bool parent_in_pool = w.pool().exists(in.prevout.hash);
+            auto it = w.names.find(in.prevout.hash);
+            if (!in_utxo && !parent_in_pool) {
+                // the parent is unconfirmed and outside the mempool (then its fate decides), or the output was spent by the chain
+                if (it != w.names.end() && fuel > 0 && w.txs.count(it->second)) {
+                    const auto& p = w.txs.at(it->second).tx;
+                    bool parent_confirmed = false;
+                    { LOCK(cs_main); for (size_t i = 0; i < p->vout.size(); ++i) if (w.sim->cm().ActiveChainstate().CoinsTip().HaveCoin(COutPoint(p->GetHash(), i))) parent_confirmed = true; }
+                    if (parent_confirmed) return true;                                       // spent by a confirmed transaction
+                    if (dead(p, fuel - 1)) return true;
+                } else {
+                    return true;
+                }
+            }
+        }
+        return false;
+    };
     bool walletdesc = false;
     {
         LOCK(w.wallet->cs_wallet);
         for (const auto& [n, t] : w.txs) {
             if (t.tx->GetHash() == txid || !w.wallet->GetWalletTx(t.tx->GetHash())) continue;
-            for (const auto& in : t.tx->vin) if (in.prevout.hash == txid) walletdesc = true;
+            bool spends = false;
+            for (const auto& in : t.tx->vin) if (in.prevout.hash == txid) spends = true;
+            if (spends && !dead(t.tx, 6)) walletdesc = true;
         }
     }
     UniValue jo = TxJson(w, *orig.tx);
